@@ -9,7 +9,7 @@ ID = 'C19'
 N = {'quick': 500, 'thorough': 12000}
 SEARCH_N = {'quick': 1200, 'thorough': 8000}
 SHARD = 63
-RULE = ('in-memory 1-D files: 1..30 records, 1..5 dependent variables, doubles of magnitude 1e-300..1e300 (mostly 1e-30..1e30), '
+RULE = ('in-memory 1-D files: 1..30 records, 1..5 dependent variables with individually drawn missing codes, the independent variable at a random position of f.variables, doubles of magnitude 1e-300..1e300 (mostly 1e-30..1e30), '
         'negative, zero, integers; int and float missing codes (7-digit and longer); masked cells with fill = code or not; 0..8 header '
         'attributes in random order with values containing colons, leading blanks, empty strings, newlines (adversarial), LLOD/ULOD '
         'flags with or without values; unmasked values near each variable\'s missing code (code*(1 +- k e-6), code +- small offsets, tiny values for code 0, '
@@ -233,6 +233,10 @@ def gen(rng, n, tier):
             vs[rng.randint(1, len(vs) - 1)]['name'] += ' b'
         if kind == 'mal-unit-newline':
             vs[rng.randint(1, len(vs) - 1)]['units'] = 'a\nb'
+        # the independent variable is created at a random position of f.variables (first, middle, last)
+        if len(vs) > 1 and rng.random() < 0.45:
+            iv0 = vs.pop(0)
+            vs.insert(rng.randint(1, len(vs)), iv0)
         for v in vs:
             v['cells'] = [None if m else _hx(x) for x, m in zip(v['cells'], v['mask'])]
             del v['mask']
